@@ -254,6 +254,7 @@ def run(chk):
         gens = {"gen1": pool.submit(tlc_job, "gen1", "MCFDGen", "MCFDGen1.cfg", workers=1, timeout=900, dump="gen.dot")}
         sims = {}
         if not quick:
+            start_design()      # the 2 x 2 model takes minutes: start it at once
             gens["gen"] = pool.submit(tlc_job, "gen", "MCFDGen", "MCFDGen.cfg", workers=1, timeout=1500, dump="gen.dot")
             for g in ("2a", "2b"):
                 sims[g] = pool.submit(sim_walks, work, "MCFDGen%s.cfg" % g, 150, 50, chk.seed)
@@ -276,7 +277,8 @@ def run(chk):
                 dw = [with_distractor(c, rng) for c in rng.sample(cw, min(len(cw), 60 if quick else 200))]
                 graph_note[name]["with_distractor_archetype"] = len(dw)
                 walks += [(c, 1, [1], "1") for c in dw]
-        start_design()
+        if quick:
+            start_design()
         for g, fut in sims.items():
             res, ws = fut.result()
             chk.add_tlc("MCFDGen%s simulation (generator: random behaviours of the harness commands)" % ("" if g == "1" else g), res)
@@ -423,9 +425,8 @@ def run(chk):
     if not chk.replay:
         for name, fut in design.items():
             res, _ = fut.result()
-            if True:
-                chk.add_tlc("%s exhaustive (TypeOK, Completeness, Completeness2, Accuracy, Initialised, Recovery, ReadPure)" % name, res)
-        chk.exhaustive = all(j["ok"] for j in chk.tlc_jobs if j["job"].startswith("MCFD"))
+            chk.add_tlc("%s exhaustive (TypeOK, Completeness, Completeness2, Accuracy, Initialised, Recovery, ReadPure)" % name, res)
+        chk.exhaustive = all(j["ok"] for j in chk.tlc_jobs if "exhaustive" in j["job"])
         rej = {}
         for v, fut in broken.items():
             res = fut.result()
